@@ -179,3 +179,77 @@ func init() {
 		})
 	})
 }
+
+// family "row-in-two-tables": nothing stops a *Row from being added to two tables; the row then tracks only the
+// table it joined last, so after Row.Add the OTHER table holds a row with more cells than it has columns.
+// Every renderer must cope (csv and markdown report a structural error; none may panic).
+func init() {
+	c09ExtraFamilies = append(c09ExtraFamilies, func(x *X) {
+		targets := allTargets()
+		x.Explore("row-in-two-tables", ExploreOpts{ShardDepth: 2, Bound: fmt.Sprintf("tables A (header of 0..2 cells or none) and B (header of 0..3 cells or none); one row of 0..2 cells added to both (either order), then extended by 0..3 cells, optionally a second ordinary row in A; both tables rendered by all %d targets", len(targets))}, func(c *Chooser) {
+			ha, hb := c.Choose(4)-1, c.Choose(5)-1
+			n0 := c.Choose(3)
+			aFirst := c.Bool()
+			ext := c.Choose(4)
+			second := c.Bool()
+			a, b := tabular.New(), tabular.New()
+			hdr := func(t tabular.Table, n int) {
+				if n < 0 {
+					return
+				}
+				items := make([]interface{}, n)
+				for i := range items {
+					items[i] = fmt.Sprintf("h%d", i)
+				}
+				t.AddHeaders(items...)
+			}
+			hdr(a, ha)
+			hdr(b, hb)
+			r := tabular.NewRow()
+			for i := 0; i < n0; i++ {
+				r.Add(tabular.NewCell(fmt.Sprintf("c%d", i)))
+			}
+			if aFirst {
+				a.AddRow(r)
+				b.AddRow(r)
+			} else {
+				b.AddRow(r)
+				a.AddRow(r)
+			}
+			for i := 0; i < ext; i++ {
+				r.Add(tabular.NewCell(fmt.Sprintf("x%d\nline2", i)))
+			}
+			if second {
+				a.AddRowItems("p", "q")
+			}
+			desc := fmt.Sprintf("A: header %d; B: header %d; row of %d cells added to %s, then %d cells added to it; second row in A: %v", ha, hb, n0, map[bool]string{true: "A then B", false: "B then A"}[aFirst], ext, second)
+			c.Logf("%s  (A has %d columns, B has %d, the row has %d cells)", desc, a.NColumns(), b.NColumns(), n0+ext)
+			x.Transition(3)
+			x.State(desc)
+			x.Nontrivial(desc)
+			for ti, t := range []tabular.Table{a, b} {
+				for _, tg := range targets {
+					r := renderBoth(tg, t)
+					tags := []string{"row_in_two_tables", "target:" + tg.Format, "via:" + tg.Via}
+					if n0+ext > t.NColumns() {
+						tags = append(tags, "row_wider_than_the_table")
+					}
+					x.Clause("C09.no_panic")
+					if r.Panicked || r.ToPanicked {
+						site, val := r.Site, r.PanicVal
+						if !r.Panicked {
+							site, val = r.ToSite, r.ToPanicVal
+						}
+						x.FailSite("C09.no_panic", tags, site, "%s of table %c panicked: %v (in %s); %s", tg.Name, "AB"[ti], val, site, desc)
+						return
+					}
+					x.Clause("C09.error_means_no_text")
+					if r.Err != nil && r.Out != "" {
+						x.Fail("C09.error_means_no_text", tags, "%s of table %c returned error %q together with text; %s", tg.Name, "AB"[ti], r.Err, desc)
+						return
+					}
+				}
+			}
+		})
+	})
+}
